@@ -4,7 +4,7 @@ import copy
 from harness.props.recorder_common import RecorderProp
 from harness.rvals import canon, canon_wire, rand_value, to_py
 
-OUT_ALIASES = ['send', 'store', 'emit']
+OUT_ALIASES = ['send', 'store', 'emit', 'svc.store_result', 'audit-log', 'emit #2']      # aliases are free text
 RAISED = ['ValueError', 'KeyError', 'AssertionError', 'CustomError', 'NotImplementedError', 'StopIteration']
 
 
